@@ -27,7 +27,7 @@ DoReadByPath == \E rot \in {"cert_block_21", "srk_table_hab"} : \E files \in {<<
                    \E u \in {0, 1} : ReadByPath(rot, files, p, u)
 DoBuild21 == \E ks \in Menu21 : \E used \in 1..Len(ks) :
                 \/ Build21(ks, used, FALSE, NoKey, 0, 0)
-                \/ \E ud \in {0, 4} : Build21(ks, used, TRUE, K(ks[1].cls, 7), ud, 0)
+                \/ \E ic \in {"p256", "p384"} : \E ud \in {0, 4} : Build21(ks, used, TRUE, K(ic, 7), ud, 0)
 DoSetUserData == \E len \in {0, 8} : len # obj.ud.len /\ SetUserData(len)
 DoSetConstraints == \E c \in {0, 1} : SetConstraints(c)
 DoBuild1 == \E ks \in Menu1 : \E used \in 1..Len(ks) : \E img \in {0, 4660} : \E h \in {<<DefVer, DefFlags>>, <<<<1, 1>>, <<1, 0, 0, 128>>>>} : Build1(ks, used, img, 3, h[1], h[2])
